@@ -177,6 +177,13 @@ def prop_C18(ctx, tier):
     run.require('C18-M4', 'library functions that empty a cache', nclr, 1)
     from . import rules_core as K
     K.check_orphan_tolerance(run, ctx, 'C18-P1')
+    # the bound after quiescence rests on the queue length being what the sync global overflow test re-establishes (C04-K1)
+    scratch = Run('C18', tier, '')
+    K.check_overflow_form(scratch, ctx)
+    for v in scratch.violations:
+        if 'counts-the-store' in v['key']:
+            run.bad('C04-K1', v['key'].split(':', 2)[2], v['what'], site=v.get('site'), oracle=v.get('oracle'))
+    run.ok('C04-K1', 'global/overflow-test-on-the-queue', 'judged with C04-K1') if not any('counts-the-store' in v['key'] for v in scratch.violations) else None
     L.check_no_try_locks(run, ctx.world, 'C18-M2')
     L.check_no_lock_release_inside(run, ctx.world, 'C18-M3')
     return run
